@@ -234,6 +234,12 @@ pub assume_specification<T: Clone>[ <[T]>::to_vec ](s: &[T]) -> (r: Vec<T>)
         r@ =~= s@,
 ;
 
+/// std: `Option<&T>::copied` (not in this vstd); lets refactorings that use it be decided
+pub assume_specification<'a, T: Copy>[ Option::<&'a T>::copied ](o: Option<&'a T>) -> (r: Option<T>)
+    ensures
+        r == (match o { Some(x) => Some(*x), None => None }),
+;
+
 pub assume_specification[ i8::unsigned_abs ](x: i8) -> (r: u8)
     ensures
         r as int == (if x >= 0 { x as int } else { -(x as int) }),
